@@ -94,7 +94,7 @@ Example C06_example :
                              EUser T_READY [0; 1] [49%N]; EUser T_INPUT [0; 0] [49%N]] = false.
 Proof. vm_compute. repeat split. Qed.
 
-(* finding F15, fixed (corpus/screen/F15_args_overwritten.json): run() twice after force_quit; the refused second request
+(* finding F15, fixed (corpus/screen/regression_F15_args_overwritten.json): run() twice after force_quit; the refused second request
    of the same screen (scheduled a second time with arguments 2) wrote InputManager._input_args and the error was
    dropped by force_quit.  LEGACY model (arguments read from the manager at delivery time): the line typed for the
    first request (arguments 1) is delivered with arguments 2 and chk_C06 rejects the trace.  Current model (the
